@@ -958,7 +958,7 @@ def eval_name_case(case: dict, st: typing.Optional[Stats] = None) -> typing.List
     elif role == "language_global":
         # never displaced: either rejected, or the language's value stays
         if env is not None and env.globals.get(name) != base["globals"][name]:
-            out.append((dict(sig0, kind="language_global_displaced"), f"{desc}: global '{name}' is now {env.globals.get(name)!r}"))
+            out.append((dict(sig0, kind="language_global_displaced"), f"{desc}: global '{name}' no longer has the language's value"))
     elif role == "jinja_default_global":
         if st is not None:
             st.c["jinja_default_global_" + ("replaced" if env is not None and _holds_sentinel(env.globals.get(name)) else "kept_or_rejected")] += 1
